@@ -317,7 +317,15 @@ def run(chk):
     if len({str(s) for s in singles}) != len(singles):
         chk.fail("duplicate-symbols-sequential", {"arguments": ARGS}, [str(s) for s in singles], "pairwise distinct symbols",
                  "[hy.gensym(a) for a in ARGS]")
-    # ---- model schedules forced on the real function
+    # ---- model schedules forced on the real function (a broken tie must not undo the oracle results above)
+    try:
+        forced_schedules(chk, hy, ok, thorough)
+    except Exception as e:  # noqa
+        import traceback
+        chk.obligation("forced-schedule runs completed", False, traceback.format_exc()[-1500:])
+
+
+def forced_schedules(chk, hy, ok, thorough):
     built, log = vlib.coq_build(["Gen/GensymSteps.vo"])
     if not built:
         chk.obligation("regenerated step program compiles (Gen/GensymSteps.v)", False, log[-1500:])
